@@ -2,6 +2,7 @@
   C08 — Command selection and option scoping.
 -/
 import GoFlags.Props.C07
+import GoFlags.Lemmas.Decl
 
 namespace GoFlags.C08
 open GoFlags Bytes
@@ -103,5 +104,100 @@ theorem command_required_error (s : PS) (h : s.retargs = []) :
 theorem unknown_command_error (s : PS) (w : Bytes) (rest : List Bytes) (h : s.retargs = w :: rest) :
     ∃ m, estimateCommand s = .flags .unknownCommand m := by
   unfold estimateCommand; simp [h]
+
+
+
+/-! ### The active chain is decided by this call alone (after the D26 repair) -/
+
+def Cmd.noActive (c : Cmd) : Cmd := { c with active := none }
+
+/-- the parser with the `Active` links of an earlier call erased -/
+def Parser.forgetActive (P : Parser) : Parser := { P with cmds := P.cmds.map Cmd.noActive }
+
+theorem listModify_map_comm {α β} (l : List α) (i : Nat) (f : α → α) (f' : β → β) (g : α → β)
+    (h : ∀ a, g (f a) = f' (g a)) : (listModify l i f).map g = listModify (l.map g) i f' := by
+  induction l generalizing i with
+  | nil => simp [listModify]
+  | cons a r ih =>
+    cases i with
+    | zero => simp [listModify, h]
+    | succ i => simp [listModify, ih]
+
+theorem forgetActive_idem (P : Parser) : (Parser.forgetActive (Parser.forgetActive P)) = Parser.forgetActive P := by
+  unfold Parser.forgetActive
+  simp [List.map_map, Function.comp_def, Cmd.noActive]
+
+theorem forgetActive_modOpt (P : Parser) (r : ORef) (f : Opt → Opt) :
+    Parser.forgetActive (P.modOpt r f) = (Parser.forgetActive P).modOpt r f := by
+  unfold Parser.forgetActive Parser.modOpt Parser.modCmd
+  simp only
+  congr 1
+  apply listModify_map_comm
+  intro c
+  rfl
+
+theorem forgetActive_cmd (P : Parser) (i : Nat) : (Parser.forgetActive P).cmd i = Cmd.noActive (P.cmd i) := by
+  unfold Parser.forgetActive Parser.cmd
+  have : ({} : Cmd) = Cmd.noActive {} := rfl
+  rw [this]
+  exact getD_map_default _ _ _ _
+
+theorem forgetActive_opt (P : Parser) (r : ORef) : (Parser.forgetActive P).opt r = P.opt r := by
+  unfold Parser.opt
+  rw [forgetActive_cmd]
+  rfl
+
+theorem forgetActive_allORefs (P : Parser) : (Parser.forgetActive P).allORefs = P.allORefs := by
+  unfold Parser.allORefs Parser.forgetActive
+  simp only
+  rw [List.zipIdx_map]
+  simp only [List.flatMap_map]
+  rfl
+
+theorem forgetActive_addHelpGroups (P : Parser) :
+    Parser.forgetActive P.addHelpGroups = (Parser.forgetActive P).addHelpGroups := by
+  unfold Parser.forgetActive Parser.addHelpGroups
+  simp only [List.map_map]
+  congr 1
+  apply List.map_congr_left
+  intro c _
+  simp only [Function.comp, Cmd.noActive]
+  by_cases h : c.hasBuiltinHelp = true
+  · simp only [h, if_true]
+  · simp only [h, if_false]; rfl
+
+theorem foldl_modOpt_forgetActive (g : Opt → Opt) (rs : List ORef) (P : Parser) :
+    Parser.forgetActive (rs.foldl (fun P r => P.modOpt r g) P) =
+      rs.foldl (fun P r => P.modOpt r g) (Parser.forgetActive P) := by
+  induction rs generalizing P with
+  | nil => rfl
+  | cons r rs ih =>
+    simp only [List.foldl_cons]
+    rw [ih, forgetActive_modOpt]
+
+/-- what `ParseArgs` starts from does not depend on the `Active` links an earlier call left -/
+theorem prepare_forgetActive (E : Env) (P : Parser) : prepare E (Parser.forgetActive P) = prepare E P := by
+  have key : ∀ Q : Parser, ({ Q with cmds := Q.cmds.map fun c => { c with active := none } } : Parser) = Parser.forgetActive Q := fun _ => rfl
+  unfold prepare
+  simp only [key, forgetActive_allORefs]
+  rw [← foldl_modOpt_forgetActive]
+  have hopts : ∀ Q : Parser, (Parser.forgetActive Q).opts = Q.opts := fun _ => rfl
+  rw [hopts]
+  split
+  · rw [← forgetActive_addHelpGroups, forgetActive_idem]
+  · rw [forgetActive_idem]
+
+/-- **The outcome of a call does not depend on the active chain an earlier call selected**: the
+    returned arguments, the error, every option value, the log and the active chain afterwards are
+    those of the same parser with no command active beforehand - for every declaration, every
+    argument vector and whatever links the parser carries. -/
+theorem outcome_independent_of_earlier_active_chain (E : Env) (help : HelpFn) (P : Parser) (argv : List Bytes)
+    (hi : P.internalError = none) :
+    parseArgs E help (Parser.forgetActive P) argv = parseArgs E help P argv := by
+  unfold parseArgs
+  have : (Parser.forgetActive P).internalError = P.internalError := rfl
+  rw [this, hi]
+  simp only
+  rw [prepare_forgetActive]
 
 end GoFlags.C08
